@@ -27,6 +27,7 @@ type Prog struct {
 	errorStringPtr types.Type
 	vidx           sync.Map // *ssa.Function -> map[ssa.Value]int
 	intr           sync.Map // *ssa.Function -> intrinsicFn (nil func = miss)
+	harnessFn      sync.Map // *ssa.Function -> bool
 	mapOrders      bool
 	overlay        map[string][]byte
 	harnessFiles   []string
@@ -162,6 +163,27 @@ func (p *Prog) harnessFunc(name string) *ssa.Function {
 		}
 	}
 	return nil
+}
+
+// isHarnessFn: the function is defined in an injected harness file (zz_verif_*.go).
+func (p *Prog) isHarnessFn(fn *ssa.Function) bool {
+	f := fn
+	for f.Parent() != nil {
+		f = f.Parent()
+	}
+	if !f.Pos().IsValid() {
+		return false
+	}
+	return strings.HasPrefix(filepath.Base(p.prog.Fset.Position(f.Pos()).Filename), "zz_verif_")
+}
+
+func (p *Prog) isHarnessFnCached(fn *ssa.Function) bool {
+	if v, ok := p.harnessFn.Load(fn); ok {
+		return v.(bool)
+	}
+	r := p.isHarnessFn(fn)
+	p.harnessFn.Store(fn, r)
+	return r
 }
 
 func (p *Prog) intrinsic(fn *ssa.Function) intrinsicFn {
